@@ -147,4 +147,51 @@ def TextOK (tgt : Ty) (s : List Nat) (d : Bool) (o : Option Nat) (n : Nat) : Pro
    (∃ v, numeral (s.take n) = some v ∧ inRange tgt v ∧
       ((d = true ∧ ∃ bits, o = some bits ∧ denote tgt bits = v) ∨ (d = false ∧ o = none))))
 
+/-! ## decimal floating-point numerals
+
+`ws* [+-]? ( D+ [. D*] | . D+ ) ( [eE] [+-]? D+ )?`, described by its parts. -/
+
+def isDigit (c : Nat) : Bool := 48 ≤ c && c ≤ 57
+
+structure DecParts where
+  ws : List Nat
+  sign : List Nat
+  ip : List Nat
+  dot : List Nat
+  fp : List Nat
+  emark : List Nat
+  esign : List Nat
+  ed : List Nat
+  deriving Repr, DecidableEq
+
+namespace DecParts
+
+def text (p : DecParts) : List Nat := p.ws ++ (p.sign ++ (p.ip ++ (p.dot ++ (p.fp ++ (p.emark ++ (p.esign ++ p.ed))))))
+
+def valid (p : DecParts) : Prop :=
+  p.ws.all isSpace = true ∧
+  (p.sign = [] ∨ p.sign = [43] ∨ p.sign = [45]) ∧
+  p.ip.all isDigit = true ∧
+  (p.dot = [] ∨ p.dot = [46]) ∧
+  p.fp.all isDigit = true ∧ (p.dot = [] → p.fp = []) ∧
+  (p.ip ≠ [] ∨ p.fp ≠ []) ∧
+  (p.emark = [] ∨ p.emark = [101] ∨ p.emark = [69]) ∧
+  (p.esign = [] ∨ p.esign = [43] ∨ p.esign = [45]) ∧
+  p.ed.all isDigit = true ∧
+  (p.emark = [] → p.esign = [] ∧ p.ed = []) ∧
+  (p.emark ≠ [] → p.ed ≠ [])
+
+def neg (p : DecParts) : Bool := p.sign = [45]
+/-- all mantissa digits read as one natural number -/
+def mant (p : DecParts) : Nat := horner 10 (p.ip ++ p.fp)
+/-- the power of ten: written exponent minus the number of fraction digits -/
+def exp10 (p : DecParts) : Int :=
+  (if p.esign = [45] then -(horner 10 p.ed : Int) else (horner 10 p.ed : Int)) - p.fp.length
+
+end DecParts
+
+/-- `t` is a decimal floating-point numeral denoting `(-1)^neg * m * 10^e` -/
+def IsDecNumeral (t : List Nat) (neg : Bool) (m : Nat) (e : Int) : Prop :=
+  ∃ p : DecParts, p.valid ∧ p.text = t ∧ p.neg = neg ∧ p.mant = m ∧ p.exp10 = e
+
 end Mpt.Scalar
